@@ -37,6 +37,7 @@ def run(ck, F, tier):
     ck.rule("F3", "phase order inside decode")
     ck.rule("F4", "field effects of the two flooding passes")
     ck.rule("F5", "layered order, in-place update and initialisation")
+    ck.rule("F8", "exact sum-product on cycle-free graphs rests on the phi and tanh check rules: their emission, leave-one-out and sign rules (C04 K1/K2 for Phif*/Tanhf*), run here")
     ck.rule("F7", "immediate variable update of the layered schedule, for every built-in arithmetic: vars[d] <- vars[d] - old message + new message in the pass that stores the new message (the rule C05-V5, run here because the layered schedule delegates this step to the arithmetic)")
     ck.rule("F6", "zero-iteration shortcut of both schedules: the raw channel LLRs are tested with 'non-positive means 1' before any message is computed")
 
@@ -364,3 +365,7 @@ def run(ck, F, tier):
     ck.floor("F7", "impl DecoderArithmetic", len(impls_), 24)
     for im_ in impls_:
         layered_update_rule(RuleAlias(ck, "F7"), F, im_["self_ty"].rsplit("::", 1)[-1], rule="V5")
+
+    # F8: the posterior clause needs the exact check rules (phi / tanh) to be the box-plus: their C04 structure rules
+    from . import c04
+    c04.run(RuleAlias(ck, "F8", only=lambda r_, k_: r_ in ("K1", "K2") and k_.startswith(("Phif", "Tanhf"))), F, "quick")
